@@ -659,5 +659,9 @@ fn clone_e2(e: &E2) -> E2 {
         E2::InvalidAddresses(a, b) => E2::InvalidAddresses(*a, *b),
         E2::InvalidTLV(a, b) => E2::InvalidTLV(*a, *b),
         E2::Leftovers(a) => E2::Leftovers(*a),
+        // a variant this harness does not know (the tree under test may have gained one): it is
+        // none of the kinds the property names, which is all the comparison needs to know
+        #[allow(unreachable_patterns)]
+        _ => E2::Leftovers(usize::MAX),
     }
 }
